@@ -68,6 +68,7 @@ static std::atomic<size_t> g_evn{0};
 static std::atomic<int> g_evon{0};
 static thread_local int tl_api = 0;               // != 0: this thread is inside an API call issued by the harness
 static thread_local uint64_t tl_cs = 0;           // stamp of the first acquisition of the pool mutex inside that call
+static thread_local int tl_cs_skip = 0;           // … after skipping this many acquisitions (a failing initialize(): its own section, then cleanup()'s)
 static thread_local int tl_widx = 0;              // 0 = not a tracked worker; else index into g_w (== thread number)
 static thread_local int tl_foreign = 0;           // the harness is driving ANOTHER pool / WorkThread (forge wt|pool): nothing of it is recorded
 static inline int me_idx() { return tl_widx ? tl_widx : (pthread_equal(pthread_self(), g_main_thr) ? 0 : -1); }
@@ -99,7 +100,7 @@ extern "C" int pthread_mutex_lock(pthread_mutex_t *m) {
     if (g_evon.load(std::memory_order_relaxed)) {
         int me = me_idx();
         if (me >= 0) {
-            if (tl_api) { if (tl_cs == 0 && m == g_cap_mutex.load(std::memory_order_relaxed)) tl_cs = seq_rlx(); }
+            if (tl_api) { if (m == g_cap_mutex.load(std::memory_order_relaxed)) { if (tl_cs_skip > 0) --tl_cs_skip; else if (tl_cs == 0) tl_cs = seq_rlx(); } }
             else if (me > 0) ev(EV_L, me, m);
         }
     }
@@ -612,10 +613,28 @@ int main() {
                 g_cleaned = false;
                 uint64_t qb = seq();
                 bool ok = false, threw = false;
-                try { ok = g_tp->initialize((ssize_t)relife_mn, (ssize_t)relife_mx); } catch (const std::exception &) { threw = true; }
+                bool willfail = g_fail_create.load() != 0;   // the op parser admits a pending failspawn only if it hits this initialize()
+                uint64_t ccs = 0, qa = 0;
+                if (willfail) {
+                    // initialize() creates k-1 workers, fails at the k-th, and calls cleanup() itself: stamp cleanup()'s own
+                    // critical section (the SECOND acquisition of the pool mutex inside the call) and the return
+                    g_deadline_ms = now_ms() + g_watchdog_ms;
+                    g_in_cleanup = 1;
+                    {
+                        ApiScope as;
+                        tl_cs_skip = 1;
+                        try { ok = g_tp->initialize((ssize_t)relife_mn, (ssize_t)relife_mx); } catch (const std::exception &) { threw = true; }
+                        ccs = tl_cs; tl_cs_skip = 0;
+                    }
+                    g_in_cleanup = 0; g_deadline_ms = 0; g_cq1 = 0;
+                    qa = seq();
+                } else {
+                    try { ok = g_tp->initialize((ssize_t)relife_mn, (ssize_t)relife_mx); } catch (const std::exception &) { threw = true; }
+                }
                 g_inited = ok;
                 if (!ok) { g_cleaned = true; int64_t dl = now_ms() + 300; while (g_created.load() != g_ended.load() && now_ms() < dl) usleep(200); }
                 if (threw) std::cout << "P init threw " << (g_created.load() - g_ended.load()) << "\n";
+                else if (willfail) std::cout << "P initf " << (ok ? 1 : 0) << " " << (g_created.load() - g_ended.load()) << " " << qb << " " << ccs << " " << qa << "\n";
                 else std::cout << "P init " << (ok ? 1 : 0) << " " << (g_created.load() - g_ended.load()) << " " << qb << "\n";
             }
             return true;
@@ -780,7 +799,8 @@ int main() {
             g_cleaned = true;
             std::cout << "P destroy ok " << qb << " " << qa << " " << live << " " << g_cq1.load() << " " << g_cleanup_cs << "\n";
         } else if (op == "relife" && w.size() == 3 && vh::to_i64(w[1], smn) && vh::to_i64(w[2], smx) && !(smn > 64 && smn <= smx)
-                   && g_tp && g_cleaned && !g_destroyed && !fin_done && g_fail_create.load() == 0 && g_bulk_n == 0) {
+                   && g_tp && g_cleaned && !g_destroyed && !fin_done && g_bulk_n == 0
+                   && (g_fail_create.load() == 0 || (!(smx < 0 || smn < 0 || smn > smx || smx == 0) && (int64_t)g_fail_create.load() <= smn))) {
             // initialize() again after cleanup() has returned: flush this lifecycle's records first (like `fin`)
             relife_pending = true; relife_mn = smn; relife_mx = smx;
             fin_done = true;
